@@ -1,0 +1,4 @@
+// Package verifhook provides named schedule/observation points used by the
+// out-of-tree verification harness. Without the `verif` build tag every hook
+// is an empty function.
+package verifhook
